@@ -224,6 +224,7 @@ class CallMixin:
             return Top("recursion")
         h = self.hooks.get("call-args")
         if h is not None:
+            self.hook_state = state  # the state in which the call happens, for hooks that build values
             r = h(self, fv, args, kwargs, node)
             if r is not None:
                 args, kwargs = r
